@@ -1157,10 +1157,186 @@ var pdfGrammar = &gramSpec{
 
 // E5Grammar: the content-stream fragments form only PDF operators, balanced q/Q and BT/ET.
 func E5Grammar(c *core.Ctx, r *core.Report) {
-	r.Rule("E5.grammar", "abstract interpretation of every literal fragment written to a page's content stream from PDF.RenderPath/RenderText/RenderImage and NewPage (callees inlined, callbacks as loops): every completed token is a PDF operator, number, name or placeholder; text-positioning/showing operators occur only inside BT…ET and path operators only outside; q/Q and BT/ET are balanced on every path; strings are terminated")
+	r.Rule("E5.grammar", "abstract interpretation of every literal fragment written to a page's content stream from PDF.RenderPath/RenderText/RenderImage and NewPage (callees inlined, callbacks as loops): every completed token is a PDF operator, number, name or placeholder; text-positioning/showing operators occur only inside BT…ET and path operators only outside; q/Q and BT/ET are balanced on every path; strings are terminated; no method that memoises an emitted graphics-state parameter in a receiver field (compares the field, emits, stores it) is called while a save (q / gsave) is open, because the restore reverts the parameter in the interpreter but not the memo")
 	runGrammar(c, r, pdfGrammar, "E5.grammar", []string{"PDF.RenderPath", "PDF.RenderText", "PDF.RenderImage", "pdfWriter.NewPage"})
 	r.Floor("E5.grammar:writes", 60)
 	r.Floor("E5.grammar:distinct-operators", 20)
 }
 
 var _ = packages.NeedName
+
+// E5FreshRef: an object number computed as len(objOffsets) names the slot that was just appended.
+func E5FreshRef(c *core.Ctx, r *core.Report) {
+	r.Rule("E5.fresh-ref", "every object number taken as pdfRef(len(w.objOffsets)) names a slot of its own: in the same statement list the nearest preceding statement that touches objOffsets is the unconditional `w.objOffsets = append(w.objOffsets, v)` with exactly one appended element (a conditional or missing append hands out the number of whatever object was created last, so two objects share a number)")
+	p := c.MustPkg(pdfRel)
+	info := p.TypesInfo
+	isOffsets := func(e ast.Expr) bool { return fieldSel(info, e, "pdfWriter", "objOffsets") }
+	mentionsLenOffsets := func(n ast.Node) *ast.CallExpr {
+		var found *ast.CallExpr
+		ast.Inspect(n, func(m ast.Node) bool {
+			call, ok := m.(*ast.CallExpr)
+			if !ok || len(call.Args) != 1 {
+				return true
+			}
+			// conversion pdfRef(len(w.objOffsets))
+			if tv, ok := info.Types[call.Fun]; !ok || !tv.IsType() {
+				return true
+			}
+			if nt, ok := info.TypeOf(call).(*types.Named); !ok || nt.Obj().Name() != "pdfRef" {
+				return true
+			}
+			inner, ok := core.Unparen(call.Args[0]).(*ast.CallExpr)
+			if !ok || len(inner.Args) != 1 {
+				return true
+			}
+			if id, ok := inner.Fun.(*ast.Ident); ok && id.Name == "len" && isOffsets(inner.Args[0]) {
+				found = call
+			}
+			return true
+		})
+		return found
+	}
+	touches := func(s ast.Stmt) bool {
+		t := false
+		ast.Inspect(s, func(m ast.Node) bool {
+			if as, ok := m.(*ast.AssignStmt); ok {
+				for _, l := range as.Lhs {
+					if isOffsets(l) {
+						t = true
+					}
+					if ie, ok := l.(*ast.IndexExpr); ok && isOffsets(ie.X) {
+						// storing an offset into an existing slot does not change the length
+						_ = ie
+					}
+				}
+			}
+			return true
+		})
+		return t
+	}
+	n := 0
+	for _, fd := range core.AllFuncDecls(p) {
+		name := core.FuncName(fd)
+		ord := 0
+		ast.Inspect(fd.Body, func(m ast.Node) bool {
+			bl, ok := m.(*ast.BlockStmt)
+			if !ok {
+				return true
+			}
+			for i, s := range bl.List {
+				// only statements that are not themselves blocks: nested lists are visited on their own
+				switch s.(type) {
+				case *ast.IfStmt, *ast.ForStmt, *ast.RangeStmt, *ast.SwitchStmt, *ast.BlockStmt, *ast.TypeSwitchStmt, *ast.SelectStmt:
+					continue
+				}
+				conv := mentionsLenOffsets(s)
+				if conv == nil {
+					continue
+				}
+				ord++
+				n++
+				key := fmt.Sprintf("pdf.%s|fresh object number #%d", name, ord)
+				bad := "no append to objOffsets precedes it in the same statement list"
+				for j := i - 1; j >= 0; j-- {
+					if !touches(bl.List[j]) {
+						continue
+					}
+					as, ok := bl.List[j].(*ast.AssignStmt)
+					if !ok || len(as.Lhs) != 1 || len(as.Rhs) != 1 || !isOffsets(as.Lhs[0]) {
+						bad = "the nearest preceding statement that changes objOffsets is conditional or compound, so on some path no slot is appended for this number"
+						break
+					}
+					call, ok := core.Unparen(as.Rhs[0]).(*ast.CallExpr)
+					if id, isId := call.Fun.(*ast.Ident); !ok || !isId || id.Name != "append" || len(call.Args) != 2 || !isOffsets(call.Args[0]) || call.Ellipsis.IsValid() {
+						bad = "objOffsets is not extended by exactly one slot before the number is taken"
+						break
+					}
+					bad = ""
+					break
+				}
+				if bad == "" {
+					r.OK("E5.fresh-ref", key, c.Pos(conv.Pos()), "appended in the same list")
+				} else {
+					r.Fail("E5.fresh-ref", key, c.Pos(conv.Pos()), bad+"; the number handed out belongs to the object created last, and two objects are written under one number")
+				}
+			}
+			return true
+		})
+	}
+	r.Count("E5.fresh-refs", n)
+	r.Floor("E5.fresh-refs", 2)
+}
+
+// E5SubsetOnce: the per-font glyph subsetter is created once per font, not once per (font, direction).
+func E5SubsetOnce(c *core.Ctx, r *core.Report) {
+	r.Rule("E5.subset-once", "pdfWriter.fontSubset maps a font to the subsetter that hands out the glyph numbers already written into content streams; an entry is only ever created under the test that the same map has no entry for the same key (`if _, ok := w.fontSubset[k]; !ok`). A guard on another map (fontsH/fontsV are per writing direction) lets the second direction replace the subsetter, and the glyph numbers written for the first direction then select other glyphs of the embedded subset")
+	p := c.MustPkg(pdfRel)
+	info := p.TypesInfo
+	isSubsetIdx := func(e ast.Expr) (ast.Expr, bool) {
+		ie, ok := core.Unparen(e).(*ast.IndexExpr)
+		if !ok || !fieldSel(info, ie.X, "pdfWriter", "fontSubset") {
+			return nil, false
+		}
+		return ie.Index, true
+	}
+	n := 0
+	for _, fd := range core.AllFuncDecls(p) {
+		name := core.FuncName(fd)
+		ord := 0
+		var walk func(node ast.Node, guards []*ast.IfStmt)
+		walk = func(node ast.Node, guards []*ast.IfStmt) {
+			ast.Inspect(node, func(m ast.Node) bool {
+				switch x := m.(type) {
+				case *ast.IfStmt:
+					if x.Init != nil {
+						walk(x.Init, guards)
+					}
+					walk(x.Body, append(append([]*ast.IfStmt{}, guards...), x))
+					if x.Else != nil {
+						walk(x.Else, guards)
+					}
+					return false
+				case *ast.AssignStmt:
+					for _, l := range x.Lhs {
+						key, ok := isSubsetIdx(l)
+						if !ok {
+							continue
+						}
+						ord++
+						n++
+						okey := fmt.Sprintf("pdf.%s|fontSubset entry #%d", name, ord)
+						guarded := false
+						for _, g := range guards {
+							as, ok := g.Init.(*ast.AssignStmt)
+							if !ok || len(as.Lhs) != 2 || len(as.Rhs) != 1 {
+								continue
+							}
+							gk, ok := isSubsetIdx(as.Rhs[0])
+							if !ok || types.ExprString(gk) != types.ExprString(key) {
+								continue
+							}
+							okID, ok := as.Lhs[1].(*ast.Ident)
+							if !ok {
+								continue
+							}
+							if ue, ok := core.Unparen(g.Cond).(*ast.UnaryExpr); ok && ue.Op == token.NOT {
+								if id, ok := core.Unparen(ue.X).(*ast.Ident); ok && core.ObjOf(info, id) == core.ObjOf(info, okID) {
+									guarded = true
+								}
+							}
+						}
+						if guarded {
+							r.OK("E5.subset-once", okey, c.Pos(x.Pos()), "created only when the font has no subsetter yet")
+						} else {
+							r.Fail("E5.subset-once", okey, c.Pos(x.Pos()), "the subsetter of a font is (re)created without testing that fontSubset has no entry for it: a font used in both writing directions loses the glyphs already written, and their numbers select other glyphs of the embedded subset")
+						}
+					}
+				}
+				return true
+			})
+		}
+		walk(fd.Body, nil)
+	}
+	r.Count("E5.subset-entries", n)
+	r.Floor("E5.subset-entries", 1)
+}
